@@ -98,6 +98,13 @@ CLAIMS["C15"] = dict(level="model_checking", tech="TLA+ definition of the C libr
          "chunked-conversion laws; each call runs in guarded memory in both slack builds, restartable calls are continued and their state re-used "
          "after errors; TraceMbs.tla first requires the recorded standard-function result to equal the definition, then judges the _s result",
     ref="§3 C15", note="locales C and C.UTF-8 of this glibc only (the property's quantifier); strings of <= 3 (quick) / 4 characters exhaustively, longer seeded; state-dependent encodings do not exist here; return codes on the size-query form are only required to be EOK or ESNOSPC (the tests pin ESNOSPC for dmax 0); trusted: TLC, harness/hmbs.c (records only)")
+CLAIMS["C19"] = dict(level="model_checking", tech="TLA+ model of the two accumulate-over-all-bytes algorithms with an observation history (TimingSafe.tla; TLC checks result correctness and data independence for all contents, and that an early-exit variant violates it) + results replayed into the real functions + valgrind memcheck/lackey observations of the compiled code validated by TraceTimingSafe.tla",
+    text="the result contract and the algorithm as a step machine whose steps append (label, index) to obs; DataIndependent = obs is a function of n; TLC "
+         "covers all content pairs over five byte classes for n <= 3/4.  The code is bound twice: every final model state, all 256x256 byte pairs at the "
+         "first difference and seeded long regions are executed in three builds and judged against the contract; and per build, function and n the "
+         "instruction/address trace of the function (lackey) must be identical for different content patterns while memcheck, with both regions marked "
+         "undefined, must report no decision depending on them - a monitor for the 2-safety property the model states",
+    ref="§3 C19", note="data independence is observed, per n in a list (quick: 15 sizes to 64, thorough: 0..69 and 8 larger), on gcc -O0/-O2/-O3 x86-64 builds of the working tree; instruction- and address-level only (no micro-architectural timing); trusted: valgrind's definedness tracking and lackey trace, nm symbol ranges, harness/hts.c")
 
 NOT_YET = {
 }
